@@ -37,6 +37,7 @@ type Prog struct {
 	mu        sync.Mutex
 	siteMu    sync.Mutex
 	derefDefs map[string]string // deref_<T> declarations + defining axioms
+	paramSnap map[string][]string // parameter names at the time the contracts were written (/verif/paramnames.json)
 	tupleTop  map[string]string   // "f h1 h2.." -> allocator top when f first read that heap version
 	recParams map[string][]recParam
 	nonlinearDef map[string]bool
@@ -286,4 +287,27 @@ func (P *Prog) globalConst(g *ssa.Global) bool {
 type recParam struct {
 	sort string
 	ref  int // 0 plain value, 1 pointer (Int root), 2 slice, 3 value containing references (no framing)
+}
+
+// paramAlias: the name parameter i of fn had when the contracts were written, if it differs from the current name
+// (a renamed parameter keeps its position; contracts keep binding it).
+func (P *Prog) paramAlias(fn *ssa.Function, i int) string {
+	k, ok := P.fnKey[fn]
+	if !ok || P.paramSnap == nil {
+		return ""
+	}
+	names := P.paramSnap[k]
+	if len(names) != len(fn.Params) || i >= len(names) {
+		return ""
+	}
+	for j, p := range fn.Params {
+		// the old name must not now denote another parameter
+		if j != i && p.Name() == names[i] {
+			return ""
+		}
+	}
+	if names[i] == fn.Params[i].Name() {
+		return ""
+	}
+	return names[i]
 }
